@@ -384,6 +384,8 @@ func writeEvidence(prop, tier string, seed int, units []*UnitResult, undecided, 
 			lemmas = append(lemmas, u.Unit)
 		case "init":
 			funcs = append(funcs, u.Unit+" (package initialiser; global invariants)")
+		case "census":
+			funcs = append(funcs, u.Unit+" (field-write census over the package's SSA)")
 		}
 		for _, s := range u.Inlined {
 			inl[s] = true
